@@ -502,14 +502,16 @@ class ExcelCompiler:
     def _reset(self, cell):
         # a range that is only used as a reference (ie: range intersection) is
         # not evaluated again with its dependants, so always look behind ranges
-        if cell.needs_calc and not isinstance(cell, _CellRange):
+        if cell.needs_calc and not (
+                isinstance(cell, _CellRange) or cell.empty_result):
             return
         self.log.info(f"Resetting {cell.address}")
         cell.value = None
+        cell.empty_result = False
 
         if cell in self.dep_graph:
             for child_cell in self.dep_graph.successors(cell):
-                if (child_cell.value is not None or
+                if (child_cell.value is not None or child_cell.empty_result or
                         isinstance(child_cell, _CellRange)):
                     self._reset(child_cell)
 
@@ -919,6 +921,10 @@ class ExcelCompiler:
                 cell.value = (value[0][0] if list_like(value[0]) else value[0]
                               ) if list_like(value) else value
 
+                # a reference to an empty cell gives None, which reads as not
+                # calculated, note that there can be dependants to reset
+                cell.empty_result = cell.value is None
+
         return cell.value
 
     def _evaluate_non_iterative(self, address):
@@ -1104,6 +1110,9 @@ class ExcelCompiler:
 class _CellBase:
 
     value = None
+
+    # a formula that has been calculated, and evaluated to None
+    empty_result = False
 
     def __init__(self, address=None, formula='', excel=None):
         formula_is_python_code = excel is None or isinstance(
